@@ -503,6 +503,7 @@ type Contract struct {
 	Each      []*Clause // "each q :: P(q)": established for tid(key) by every callback invocation, stable
 	EachVar   []string
 	Fresh     bool                 // result is a fresh allocation (lib)
+	AtStore   map[string][]*Clause // "atstore T.f requires P": P holds at every store to field f of a T in this function
 	AtNew     map[string][]*Clause // "atnew T requires P": P holds wherever this function allocates a T
 	NoAlloc   bool
 	Opaque    bool
@@ -786,6 +787,27 @@ func (db *SpecDB) loadFile(path string, lib bool) error {
 				c := &Clause{Kind: "each", Tags: tags, Text: txt, E: e, Where: where, Ord: len(cur.Each) + 1}
 				cur.Each = append(cur.Each, c)
 				cur.EachVar = append(cur.EachVar, strings.TrimSpace(txt[:i]))
+				for _, t := range tags {
+					cur.Props[t] = true
+				}
+			case "atstore":
+				// atstore <Type>.<field> requires [tags] expr : expr must hold at every store to that field
+				// in this function
+				tn, r2 := splitWord(rest)
+				w2, r3 := splitWord(r2)
+				if w2 != "requires" {
+					return fail(fmt.Errorf("atstore: expected `atstore <Type>.<field> requires <expr>`"))
+				}
+				tags, txt := parseTags(r3)
+				e, err := parseSpecExpr(txt)
+				if err != nil {
+					return fail(err)
+				}
+				if cur.AtStore == nil {
+					cur.AtStore = map[string][]*Clause{}
+				}
+				c := &Clause{Kind: "atstore", Tags: tags, Text: txt, E: e, Where: where, Ord: len(cur.AtStore[tn]) + 1}
+				cur.AtStore[tn] = append(cur.AtStore[tn], c)
 				for _, t := range tags {
 					cur.Props[t] = true
 				}
